@@ -17,9 +17,9 @@ PROP = dict(
     specdir="store", engine="c11",
     mc=[dict(module="StoreNames", cfg="MC_StoreNames.cfg", tiers=("quick",)),
         dict(module="StoreNames", cfg="MC_StoreNames_aux.cfg", tiers=("thorough",)),
-        dict(module="StoreNames", cfg="MC_StoreNames_thorough.cfg", tiers=("thorough",), timeout=1500)],
+        dict(module="StoreNames", cfg="MC_StoreNames_thorough.cfg", tiers=("thorough",), timeout=3000)],
     trace=dict(module="StoreNamesTrace", cfg="StoreNamesTrace.cfg"),
-    chunk_lines=12000,
+    chunk_lines=6000,
     engine_timeout={"quick": 600, "thorough": 2400},
     nontrivial=_nontrivial,
     rule="every wire name = sequence of tokens {x y . .. / %2E %2e %2F %2f %252E %252F %25 %} (quick: all of length <=2 through "
